@@ -29,6 +29,20 @@ so.SORTS['Seq[PyV]'] = PySeq
 SORT_ELEM['PyV'] = 'pyv'
 ELEM_SORT['pyv'] = PyV
 
+# (key, value) tuples of constructed values, e.g. the items of a dict
+_PP = z3.Datatype('PyPair')
+_PP.declare('pp_mk', ('pp_k', PyV), ('pp_v', PyV))
+PyPair = _PP.create()
+PPSeq = z3.SeqSort(PyPair)
+so.SORTS['PyPair'] = PyPair
+so.SORTS['Seq[PyPair]'] = PPSeq
+SORT_ELEM['PyPair'] = 'pypair'
+ELEM_SORT['pypair'] = PyPair
+# attributes of objects
+py_hasattr = z3.Function('py_hasattr', PyV, so.S, so.B)
+py_attr = z3.Function('py_attr', PyV, so.S, PyV)
+py_yattrs = z3.Function('py_yattrs', PyV, PyV)   # obj._yatiml_attributes()
+
 # isinstance(obj, cls) for classes the model does not interpret
 ct_isinst = z3.Function('ct_isinst', PyV, Ty, so.B)
 # type(obj)
@@ -41,6 +55,7 @@ _AS.declare('as_mk', ('as_id', so.I))
 ArgSpec = _AS.create()
 so.SORTS['ArgSpec'] = ArgSpec
 as_args = z3.Function('as_args', ArgSpec, z3.ArraySort(so.S, so.B))
+as_arglist = z3.Function('as_arglist', ArgSpec, z3.SeqSort(so.S))
 as_has_ann = z3.Function('as_has_ann', ArgSpec, so.S, so.B)
 as_ann = z3.Function('as_ann', ArgSpec, so.S, Ty)
 cls_argspec = z3.Function('cls_argspec', Ty, ArgSpec)
@@ -71,6 +86,38 @@ class VPy(V):
 
 
 interp.WRAPPERS[PyV] = VPy
+
+
+class VPyPair(V):
+    __slots__ = ('t',)
+
+    def __init__(self, t):
+        self.t = t
+
+
+interp.WRAPPERS[PyPair] = VPyPair
+
+
+class VArgs(VSetStr):
+    """argspec.args: membership on the set view, slicing / iteration on the
+    list view"""
+    __slots__ = ('lst',)
+
+    def __init__(self, t, lst):
+        VSetStr.__init__(self, t)
+        self.lst = lst
+
+    @property
+    def vals(self):
+        return VSeq(self.lst, 'str')
+
+
+class VPyODict(V):
+    """OrderedDict(list of (key, value) tuples)"""
+    __slots__ = ('items',)
+
+    def __init__(self, items):
+        self.items = items
 
 
 class VArgSpec(V):
@@ -126,6 +173,10 @@ class PyValPlugin:
         return None
 
     def spec_name(self, eng, name):
+        if name in ('represented_items', 'represented_tag', 'py_hasattr',
+                    'py_attr', 'py_yattrs', 'mk_pypair', 'as_arglist',
+                    'empty_pypairs', 'pp_k', 'pp_v'):
+            return VExt('specb.' + name)
         if name in ('constructed', 'init_args', 'init_called'):
             return VExt('specb.' + name)
         if name in ('py_is_list', 'py_is_dict', 'py_is_bool', 'py_items',
@@ -157,6 +208,34 @@ class PyValPlugin:
         if name == 'py_inst':
             t = eng.models.to_term(eng, args[1], Ty, st)
             return VBool(inst_term(args[0].t, t))
+        if name == 'represented_items':
+            v = self._note(st, 'represented')
+            if v is None:
+                raise Unsupported('represent_mapping was not called on this '
+                                  'path', node)
+            return v[1]
+        if name == 'represented_tag':
+            v = self._note(st, 'represented')
+            if v is None:
+                raise Unsupported('represent_mapping was not called on this '
+                                  'path', node)
+            return v[0]
+        if name == 'py_hasattr':
+            return VBool(py_hasattr(args[0].t, args[1].t))
+        if name == 'py_attr':
+            return VPy(py_attr(args[0].t, args[1].t))
+        if name == 'py_yattrs':
+            return VPy(py_yattrs(args[0].t))
+        if name == 'mk_pypair':
+            return VPyPair(PyPair.pp_mk(args[0].t, args[1].t))
+        if name == 'pp_k':
+            return VPy(PyPair.pp_k(args[0].t))
+        if name == 'pp_v':
+            return VPy(PyPair.pp_v(args[0].t))
+        if name == 'as_arglist':
+            return VSeq(as_arglist(args[0].t), 'str')
+        if name == 'empty_pypairs':
+            return VSeq(z3.Empty(PPSeq), 'pypair')
         if name == 'constructed':
             v = self._note(st, 'constructed')
             if v is None:
@@ -197,6 +276,24 @@ class PyValPlugin:
     def call_ext(self, eng, name, args, kwargs, st, node):
         if name == 'type' and len(args) == 1 and isinstance(args[0], VPy):
             return [(st, VTy(py_type(args[0].t)))]
+        if name == 'hasattr' and len(args) == 2 and isinstance(
+                args[0], VPy) and isinstance(args[1], VStr):
+            eng.assume_note('E-ATTR: hasattr/getattr on the dumped object as '
+                            'uninterpreted functions of (object, name)')
+            return [(st, VBool(py_hasattr(args[0].t, args[1].t)))]
+        if name == 'getattr' and len(args) == 2 and isinstance(
+                args[0], VPy) and isinstance(args[1], VStr):
+            return self.getattr_py(eng, args[0], args[1].t, st, node)
+        if name == 'OrderedDict' and len(args) == 1 and isinstance(
+                args[0], VSeq) and args[0].elem == 'pypair':
+            return [(st, VPyODict(args[0].t))]
+        if name == 'inspect.getfullargspec' and len(args) == 1 and \
+                isinstance(args[0], VExtMethod) and \
+                args[0].name == '__init__' and isinstance(args[0].recv, VPy):
+            eng.assume_note('E-ARGSPEC: inspect.getfullargspec(obj.__init__) '
+                            'is a function of the object\'s class')
+            a = cls_argspec(py_type(args[0].recv.t))
+            return [(st, VArgSpec(a))]
         if name == 'inspect.getfullargspec' and len(args) == 1 and \
                 isinstance(args[0], VExtMethod) and \
                 args[0].name == '__init__':
@@ -209,6 +306,51 @@ class PyValPlugin:
             a = cls_argspec(t)
             st.assume(z3.Select(as_args(a), z3.StringVal('self')))
             return [(st, VArgSpec(a))]
+        return None
+
+    def getattr_py(self, eng, o, name_t, st, node):
+        out = []
+        for s2, has in eng.branch(st, py_hasattr(o.t, name_t)):
+            if has:
+                out.append((s2, VPy(py_attr(o.t, name_t))))
+            else:
+                out.append((s2, Raise(VExc('AttributeError', (),
+                                           getattr(node, 'lineno', 0)))))
+        return out
+
+    def elem_term(self, eng, v, st):
+        if isinstance(v, VPyPair):
+            return 'pypair', v.t
+        if isinstance(v, VPy):
+            return 'pyv', v.t
+        if isinstance(v, VTuple) and len(v.items) == 2 and isinstance(
+                v.items[1], VPy) and isinstance(v.items[0], (VStr, VPy)):
+            k = v.items[0]
+            kt = PyV.py_Str(k.t) if isinstance(k, VStr) else k.t
+            return 'pypair', PyPair.pp_mk(kt, v.items[1].t)
+        return None
+
+    def zip_items(self, eng, d, st, node):
+        """dict.items() as a Seq[PyPair]: the spec function zipkv"""
+        ks, vs = dkeys(d), dvals(d)
+        st.assume(seq_len(ks) == seq_len(vs))
+        return eng.models.call_spec(eng, 'zipkv', [
+            VSeq(ks, 'pyv'), VSeq(vs, 'pyv'), VInt(seq_len(ks))], st, node)
+
+    def mutate(self, eng, target, recv, name, args, st, node):
+        if name == 'extend' and isinstance(recv, (VSeq, VListC)) and \
+                isinstance(args[0], VPyItems):
+            if isinstance(recv, VListC):
+                if recv.items:
+                    return None
+                base = z3.Empty(PPSeq)
+            elif recv.elem == 'pypair':
+                base = recv.t
+            else:
+                return None
+            z = self.zip_items(eng, args[0].t, st, node)
+            new = VSeq(z3.Concat(base, z.t), 'pypair')
+            return eng.models.store_back(eng, target, new, st, node)
         return None
 
     def call_star(self, eng, e, st):
@@ -336,10 +478,24 @@ class PyValPlugin:
 
     def call_method(self, eng, recv, name, args, kwargs, st, node):
         if isinstance(recv, VPy) and name == 'items':
-            if not st.entails(PyV.is_py_Dict(recv.t)):
-                raise Unsupported('.items() on a constructed value that is '
-                                  'not known to be a dict', node)
-            return [(st, VPyItems(recv.t))]
+            out = []
+            for s2, isd in eng.branch(st, PyV.is_py_Dict(recv.t)):
+                if isd:
+                    out.append((s2, VPyItems(recv.t)))
+                else:
+                    out.append((s2, Raise(VExc('AttributeError', (),
+                                               getattr(node, 'lineno', 0)))))
+            return out
+        if isinstance(recv, VPy) and name == '_yatiml_attributes' \
+                and not args:
+            eng.assume_note('H-ATTRS: _yatiml_attributes() is a function of '
+                            'the object; it may raise anything')
+            bad = st.fork()
+            return [(bad, Raise(VExc('UserException', (VStr(fresh(
+                'usermsg', so.S)),), getattr(node, 'lineno', 0)))),
+                (st, VPy(py_yattrs(recv.t)))]
+        if name == 'represent_mapping' and len(args) == 2:
+            return self.represent_mapping(eng, args[0], args[1], st, node)
         if name == '__new__' and eng.as_ty(recv) is not None \
                 and len(args) == 1:
             return [(st, VPy(PyV.py_Obj(eng.as_ty(recv),
@@ -351,6 +507,48 @@ class PyValPlugin:
             # names (sound over-approximation)
             return [(st, VSeq(fresh('dkeys', z3.SeqSort(so.S)), 'str'))]
         return None
+
+    def represent_mapping(self, eng, tag, attrs, st, node):
+        """E-REPRESENT: dumper.represent_mapping(tag, mapping) builds a
+        mapping node with that tag from the items of the mapping in their
+        order (sort_keys=False is established by Dumper.__init__: C06 glue
+        check), representing keys and values recursively; the representers of
+        nested values may raise.  What it was called with is recorded as
+        ghost state."""
+        eng.assume_note('E-REPRESENT: represent_mapping(tag, mapping) builds '
+                        'a mapping node with that tag from the items in '
+                        'order; nested representers may raise')
+        if isinstance(attrs, VPyODict):
+            items = VSeq(attrs.items, 'pypair')
+        elif isinstance(attrs, VPy):
+            if not st.entails(PyV.is_py_Dict(attrs.t)):
+                # not a dict: PyYAML fails on .items()
+                out = []
+                for s2, isd in eng.branch(st, PyV.is_py_Dict(attrs.t)):
+                    if isd:
+                        out.extend(self.represent_mapping(eng, tag, attrs,
+                                                          s2, node))
+                    else:
+                        out.append((s2, Raise(VExc(
+                            'AttributeError', (),
+                            getattr(node, 'lineno', 0)))))
+                return out
+            items = self.zip_items(eng, attrs.t, st, node)
+        else:
+            return None
+        line = getattr(node, 'lineno', 0)
+        bad = st.fork()
+        out = [(bad, Raise(VExc('RepresenterError', (VStr(fresh(
+            'repmsg', so.S)),), line)))]
+        st.notes.append(('represented', (tag, items)))
+        from .terms import nfield
+        n = fresh('represented', so.YNode)
+        st.assume(so.is_N(n))
+        st.assume(nfield(n, 'kind') == so.K_MAP)
+        if isinstance(tag, VStr):
+            st.assume(nfield(n, 'tag') == tag.t)
+        out.append((st, st.new_root(n, 'n')))
+        return out
 
     def construct_mapping(self, eng, nodev, st, node):
         """E-CONSTRUCT: loader.construct_mapping(node, deep=True) builds a
@@ -386,7 +584,8 @@ class PyValPlugin:
         return out
 
     def obj_attr(self, eng, v, name, st):
-        if name == 'construct_mapping' and getattr(v, 'cls', 1) is None:
+        if name in ('construct_mapping', 'represent_mapping') and getattr(
+                v, 'cls', 1) is None:
             return [(st, VExtMethod(v, name))]
         return None
 
@@ -394,7 +593,11 @@ class PyValPlugin:
         if isinstance(v, VPy) and name == 'items':
             return [(st, VExtMethod(v, 'items'))]
         if isinstance(v, VArgSpec) and name == 'args':
-            return [(st, VSetStr(as_args(v.t)))]
+            return [(st, VArgs(as_args(v.t), as_arglist(v.t)))]
+        if isinstance(v, VPy) and name == '_yatiml_extra':
+            return self.getattr_py(eng, v, z3.StringVal(name), st, None)
+        if isinstance(v, VPy) and name in ('_yatiml_attributes', '__init__'):
+            return [(st, VExtMethod(v, name))]
         if isinstance(v, VArgSpec) and name == 'annotations':
             return [(st, VAnnMap(v.t))]
         return None
